@@ -304,6 +304,9 @@ func (r *rewriter) stmt(s ast.Stmt) ast.Stmt {
 				return sw
 			}
 		}
+		if sw := r.selectPoll(x); sw != nil {
+			return sw
+		}
 		if r.p.strict {
 			r.fail = append(r.fail, r.fn+": select statement is not supported by the instrumenter")
 		}
@@ -393,6 +396,50 @@ func (r *rewriter) selectTimer(x *ast.SelectStmt) ast.Stmt {
 		return &ast.CaseClause{List: []ast.Expr{&ast.BasicLit{Kind: token.INT, Value: v}}, Body: body}
 	}
 	return &ast.SwitchStmt{Tag: tag, Body: &ast.BlockStmt{List: []ast.Stmt{mk("0", bodies[0]), mk("1", bodies[1])}}}
+}
+
+// selectPoll rewrites the non-blocking poll `select { case <-ch: A; default: B }` on a closed-only channel
+// (profile.recvClosed) into `if vsched.PollClosed(ch, "fn:poll:ch") { A } else { B }`: one scheduling point, then
+// the non-blocking test. nil if the statement does not have that shape.
+func (r *rewriter) selectPoll(x *ast.SelectStmt) ast.Stmt {
+	if len(x.Body.List) != 2 {
+		return nil
+	}
+	var chExpr ast.Expr
+	var bodies [2][]ast.Stmt
+	seenDefault := false
+	for _, c := range x.Body.List {
+		cc, ok := c.(*ast.CommClause)
+		if !ok {
+			return nil
+		}
+		if cc.Comm == nil {
+			seenDefault = true
+			bodies[1] = cc.Body
+			continue
+		}
+		es, ok := cc.Comm.(*ast.ExprStmt)
+		if !ok {
+			return nil
+		}
+		u, ok := es.X.(*ast.UnaryExpr)
+		if !ok || u.Op != token.ARROW || !matches(r.p.recvClosed, show(u.X)) {
+			return nil
+		}
+		chExpr = u.X
+		bodies[0] = cc.Body
+	}
+	if chExpr == nil || !seenDefault {
+		return nil
+	}
+	r.count++
+	for k := range bodies {
+		for i := range bodies[k] {
+			bodies[k][i] = r.stmt(bodies[k][i])
+		}
+	}
+	cond := &ast.CallExpr{Fun: sel("vsched", "PollClosed"), Args: []ast.Expr{chExpr, lit(r.fn + ":poll:" + show(chExpr))}}
+	return &ast.IfStmt{Cond: cond, Body: &ast.BlockStmt{List: bodies[0]}, Else: &ast.BlockStmt{List: bodies[1]}}
 }
 
 func main() {
